@@ -522,7 +522,7 @@ func (s *Sched) starved() bool {
 		}
 		any = true
 		switch g.w.(type) {
-		case *Mutex, rwRead, rwWrite, *condTicket, *WaitGroup, *Once:
+		case *Mutex, rwRead, rwWrite, *condTicket, *wgTicket, *Once:
 		default:
 			return false
 		}
@@ -773,7 +773,7 @@ func (s *Sched) blockedSites() []string {
 		}
 		all = append(all, g.siteTag+"@"+fn)
 		switch g.w.(type) {
-		case *Mutex, rwRead, rwWrite, *condTicket, *WaitGroup, *Once:
+		case *Mutex, rwRead, rwWrite, *condTicket, *wgTicket, *Once:
 			out = append(out, g.siteTag+"@"+fn)
 		}
 	}
